@@ -47,7 +47,7 @@ package performance
 //@   loop 3 ghost-end fin := inflow
 //@   loop 4 ghost-end fout := outflow
 //@   ensures [C20] @formula: result == perfOf(s0, s1, fin, fout)
-//@   ensures [C20] @noflows: len(dpv.Inflow) == 0 && len(dpv.Outflow) == 0 && dpv.PortfolioInflow == 0.0 && dpv.PortfolioOutflow == 0.0 && s0 != s1 ==> result == s1 / s0
+//@   ensures [C20] @noflows: len(dpv.Inflow) == 0 && len(dpv.Outflow) == 0 && s0 != s1 ==> result == s1 / s0
 //@   loop 1 invariant s0 == v0 && s1 == 0.0 && fin == dpv.PortfolioInflow && fout == dpv.PortfolioOutflow
 //@   loop 2 invariant s0 == v0 && s1 == v1 && fin == dpv.PortfolioInflow && fout == dpv.PortfolioOutflow
 //@   loop 3 invariant s0 == v0 && s1 == v1 && fin == inflow && fout == dpv.PortfolioOutflow && (len(dpv.Inflow) == 0 ==> inflow == dpv.PortfolioInflow)
